@@ -37,6 +37,8 @@ struct TaskM {
     uint64_t instance = 0;      // scheduled instance counter
     uint64_t invoked_instance = 0;
     int resched_left = 0;
+    int running = 0;            // its function is on the stack
+    bool idle_cancel = false;   // the pending 'instance' is a cancel of a task that is not in the scheduler
     std::vector<Behav> on_run, on_cancel;
 };
 
@@ -61,6 +63,8 @@ struct Ctx {
     int cleanup_sched_budget = 0; // bounds task functions that keep scheduling during clean-up (a caller-made infinite loop otherwise)
 };
 static Ctx *g = nullptr;
+
+void task_fn(struct aws_task *task, void *arg, enum aws_task_status status);
 
 uint64_t abs_time(Ctx &c, int mode, int64_t delta) {
     switch (mode) {
@@ -98,8 +102,21 @@ void do_sched_fut(Ctx &c, TaskM &t, uint64_t when, bool fail_push) {
     aws_task_scheduler_schedule_future(&c.sched, &t.task, when);
     sim::set_pushref_next(false);
 }
-void do_cancel(Ctx &c, TaskM &t) {
-    if (t.state != PENDING) return; // cancel is documented for "a task that has been scheduled"
+void do_cancel(Ctx &c, TaskM &t, bool idle_ok = false, bool reinit = false) {
+    if (t.state != PENDING) {
+        // Cancelling a task that is not in the scheduler is what aws_thread_scheduler does for a task cancelled before it was handed
+        // over: nothing to remove, the function is invoked with CANCELED status, nobody else is affected. Only generated for a task
+        // whose function is not on the stack right now.
+        if (!idle_ok || t.running) return;
+        if (reinit) { aws_task_init(&t.task, task_fn, &t, "dsim"); sim::probe("cancel_of_freshly_initialised_task"); }
+        sim::probe("cancel_of_task_not_in_scheduler");
+        t.state = PENDING;
+        t.asap = false;
+        t.time = UINT64_MAX;
+        t.idle_cancel = true;
+        t.in_batch = false;
+        t.instance++;
+    }
     int prev = c.cancelling;
     bool prev_seen = c.cancel_seen;
     c.cancelling = t.id;
@@ -193,7 +210,10 @@ void task_fn(struct aws_task *task, void *arg, enum aws_task_status status) {
     t.invoked_instance = t.instance;
     t.state = IDLE;
     t.in_batch = false;
+    t.idle_cancel = false;
+    t.running++;
     run_behaviours(c, t, status == AWS_TASK_STATUS_RUN_READY ? t.on_run : t.on_cancel);
+    t.running--;
 }
 
 void check_has_tasks(Ctx &c, const char *where) {
@@ -202,7 +222,7 @@ void check_has_tasks(Ctx &c, const char *where) {
     bool m_has = false;
     uint64_t m_next = UINT64_MAX;
     bool any_asap = false;
-    for (auto &t : c.tasks) if (t.state == PENDING) { m_has = true; if (t.asap) any_asap = true; else if (t.time < m_next) m_next = t.time; }
+    for (auto &t : c.tasks) if (t.state == PENDING && !t.idle_cancel) { m_has = true; if (t.asap) any_asap = true; else if (t.time < m_next) m_next = t.time; }
     if (any_asap) m_next = 0;
     if (has != m_has)
         sim::violation("c07:has-tasks", "%s: has_tasks returned %d, model says %d", where, (int)has, (int)m_has);
@@ -284,7 +304,7 @@ RunInfo run(const sim::Plan &plan) {
         switch (op.kind) {
             case OP_SCHED_NOW: do_sched_now(c, c.tasks[(size_t)op.a % c.tasks.size()]); break;
             case OP_SCHED_FUT: do_sched_fut(c, c.tasks[(size_t)op.a % c.tasks.size()], abs_time(c, (int)op.b, op.c), op.d != 0); break;
-            case OP_CANCEL: do_cancel(c, c.tasks[(size_t)op.a % c.tasks.size()]); break;
+            case OP_CANCEL: do_cancel(c, c.tasks[(size_t)op.a % c.tasks.size()], op.b != 0, op.c != 0); break;
             case OP_RUN_ALL: {
                 uint64_t now;
                 switch (op.a) {
@@ -404,7 +424,7 @@ void gen(uint64_t seed, int tier, sim::Plan &p) {
             op.b = r.pick(std::vector<int64_t>{0, 1, 2, 3, 3, 3, 3, 4, 5, 5});
             op.c = r.pick(deltas);
             op.d = r.chance(pf);
-        } else if (k < 62) { op.kind = OP_CANCEL; op.a = r.range(0, nt - 1); }
+        } else if (k < 62) { op.kind = OP_CANCEL; op.a = r.range(0, nt - 1); op.b = r.chance(0.3); op.c = r.chance(0.5); }
         else if (k < 85) {
             op.kind = OP_RUN_ALL;
             op.a = r.pick(std::vector<int64_t>{0, 0, 0, 5, 5, 5, 5, 1, 2, 3, 4});
@@ -425,7 +445,7 @@ std::string op_text(const sim::Op &op) {
     switch (op.kind) {
         case OP_SCHED_NOW: snprintf(b, sizeof b, "schedule_now(task %lld)", (long long)op.a); break;
         case OP_SCHED_FUT: snprintf(b, sizeof b, "schedule_future(task %lld, %s, d=%lld)%s", (long long)op.a, tm[op.b % 6], (long long)op.c, op.d ? " [push_ref fails]" : ""); break;
-        case OP_CANCEL: snprintf(b, sizeof b, "cancel(task %lld)", (long long)op.a); break;
+        case OP_CANCEL: snprintf(b, sizeof b, "cancel(task %lld)%s%s", (long long)op.a, op.b ? " [also if it is not in the scheduler" : "", op.b ? (op.c ? ", after aws_task_init]" : "]") : ""); break;
         case OP_RUN_ALL: snprintf(b, sizeof b, "run_all(%s, d=%lld)", rm[op.a % 6], (long long)op.b); break;
         case OP_HAS_TASKS: snprintf(b, sizeof b, "has_tasks()"); break;
         case OP_CLEANUP_REINIT: snprintf(b, sizeof b, "clean_up(); init()"); break;
